@@ -173,14 +173,19 @@ def doActs : Nat → List Act → Nat → Ev → PS → PS × Res
           | (ps1, some why) => (ps1, .halt why)
           | (ps1, none) => doActs fuel acts (idx+1) ev (resetBusy ps1 idx)
 
-/-- join.flush → processor.Propagate of the event held by action `i` -/
+/-- join.flush → processor.Propagate of the event held by action `i`: the rest of the actions
+    run once on the re-injected event (doActions, then Out if it passed); the frame that called
+    the action keeps doing the waiting -/
 def flushAt : Nat → List Act → Nat → PS → PS × Option String
   | 0, _, _, ps => (ps, some "fuel")
   | fuel+1, acts, i, ps =>
     match heldAt ps i with
     | none => (ps, some "panic:first-event-is-nil")
     | some x =>
-      procSeq fuel acts (.reg x) (i+1) (resetBusy (emit (setHeld ps i none) (.propagate x.seq)) i)
+      match doActs fuel acts (i+1) (.reg x) (resetBusy (emit (setHeld ps i none) (.propagate x.seq)) i) with
+      | (ps1, .halt why) => (ps1, some why)
+      | (ps1, .passed) => (emit ps1 (.out x.seq), none)
+      | (ps1, .stopped _) => (ps1, none)
 
 /-- processor.processSequence -/
 def procSeq : Nat → List Act → Ev → Nat → PS → PS × Option String
